@@ -16,25 +16,13 @@
    is equivalent to) the current view", and for any derive function the cached value derive k snapshot equals
    derive k (current view)  (Proofs.CacheProofs).
 
-   The model is parameterised by [cfg]: which of the repairs proposed for the defects found in the unchanged code
-   are applied.  [faithful] = the code as it is; [fixed] = all repairs. *)
+   The model mirrors the code as it is after the fix: commits 2606b7c .. 84053d6 (delete_* flush, copy()/substructure()
+   set _changed/_backup, __exit__ restores _changed / flushes / tracks setter edits, add_bond(.., 8) labels, remap maps
+   _changed). *)
 From Coq Require Import ZArith List Bool.
 From Model Require Import PyBase.
 Import ListNotations.
 Open Scope Z_scope.
-
-(* ------------------------------------------------------------------------------------------------ *)
-(* configuration: repairs *)
-Record cfg := mkCfg {
-  fx_del_flush : bool;        (* delete_atom / delete_bond call flush_cache() *)
-  fx_exn_changed : bool;      (* __exit__ (exception branch) resets _changed *)
-  fx_slots : bool;            (* copy() sets _changed/_backup, substructure() sets _backup *)
-  fx_exit_flush : bool;       (* __exit__ (normal branch) calls flush_cache() *)
-  fx_exit_changed : bool;     (* __exit__ (normal branch) resets _changed: every hydrogen count is recalculated *)
-  fx_special_labels : bool    (* add_bond(.., 8) calls calc_labels() before its early return *)
-}.
-Definition faithful := mkCfg false false false false false false.
-Definition fixed := mkCfg true true true true true true.
 
 (* ------------------------------------------------------------------------------------------------ *)
 (* Python dict / set helpers (insertion-ordered association lists) *)
@@ -53,11 +41,8 @@ Fixpoint sadd (x : Z) (l : list Z) : list Z :=
   | [] => [x]
   | y :: r => if x <? y then x :: l else if x =? y then l else y :: sadd x r
   end.
-Definition zmax (l : list Z) (default : Z) : Z := fold_left Z.max l default.
-
-Inductive slot (A : Type) := Unset | Val (a : A).     (* a __slots__ attribute: never assigned / assigned *)
-Arguments Unset {A}.
-Arguments Val {A} a.
+Definition zmax (l : list Z) (default : Z) : Z :=                 (* max(l, default=default) *)
+  match l with [] => default | x :: r => fold_left Z.max r x end.
 
 (* ------------------------------------------------------------------------------------------------ *)
 (* atoms and bonds *)
@@ -102,14 +87,15 @@ Fixpoint cget (c : cache) (k : key) : option view :=
   match c with [] => None | (k', v) :: r => if key_eqb k k' then Some v else cget r k end.
 
 Record bk := mkBk {          (* the fields of the backup copy that __exit__ reads *)
-  bk_atoms : list (Z * acell); bk_adj : adjacency; bk_cache : cache; bk_name : option Z; bk_meta : option (list (Z * Z))
+  bk_atoms : list (Z * acell); bk_adj : adjacency; bk_cache : cache; bk_changed : option (list Z);
+  bk_name : option Z; bk_meta : option (list (Z * Z))
 }.
 Record mobj := mkM {
   o_atoms : list (Z * acell);            (* _atoms *)
   o_adj : adjacency;                     (* _bonds *)
   o_cache : cache;                       (* __dict__ *)
-  o_changed : slot (option (list Z));    (* _changed *)
-  o_backup : slot (option bk);           (* _backup *)
+  o_changed : option (list Z);           (* _changed: None or a set (kept sorted) *)
+  o_backup : option bk;                  (* _backup *)
   o_name : option Z;                     (* _name *)
   o_meta : option (list (Z * Z))         (* _meta *)
 }.
@@ -217,11 +203,10 @@ Fixpoint calc_implicit_all (ns : list Z) : act :=
 Definition fix_structure : act :=
   calc_labels ;;
   (fun h o => match o_changed o with
-              | Unset => raise AttributeError h o
-              | Val None | Val (Some []) => calc_implicit_all (keys (o_atoms o)) h o
-              | Val (Some l) => calc_implicit_all l h o
+              | None | Some [] => calc_implicit_all (keys (o_atoms o)) h o      (* self._changed or self._atoms *)
+              | Some l => calc_implicit_all l h o
               end) ;;
-  (fun h o => ok h (set_changed o (Val None))).
+  (fun h o => ok h (set_changed o None)).
 
 (* fix_stereo: as far as the cache is concerned, it reads the stereo registries (entries lumped in Kplain 0) *)
 Definition fix_stereo : act := read (Kplain 0).
@@ -229,41 +214,43 @@ Definition fix_stereo : act := read (Kplain 0).
 (* self._changed.add(..) for each of ns (or = {..}) *)
 Definition mark_changed (ns : list Z) : act := fun h o =>
   match o_changed o with
-  | Unset => raise AttributeError h o
-  | Val None => ok h (set_changed o (Val (Some (fold_right sadd [] ns))))
-  | Val (Some l) => ok h (set_changed o (Val (Some (fold_right sadd l ns))))
+  | None => ok h (set_changed o (Some (fold_right sadd [] ns)))
+  | Some l => ok h (set_changed o (Some (fold_right sadd l ns)))
   end.
 (* `if not _skip_calculation and self._backup is None:` *)
 Definition unless_transaction (a : act) : act := fun h o =>
   match o_backup o with
-  | Unset => raise AttributeError h o
-  | Val None => a h o
-  | Val (Some _) => ok h o
+  | None => a h o
+  | Some _ => ok h o
   end.
 
 (* ---- add_atom(atom, n) *)
+Definition put_atom (c : acore) (n' : Z) : act := fun h o =>       (* self._atoms[n] = atom; self._bonds[n] = {} *)
+  ok h (set_adj (set_atoms o (o_atoms o ++ [(n', mkA c None None)])) (o_adj o ++ [(n', [])])).
 Definition add_atom (c : acore) (n : option Z) : act := fun h o =>
   let n' := match n with None => zmax (keys (o_atoms o)) 0 + 1 | Some x => x end in
   if match n with Some x => zmem x (keys (o_atoms o)) | None => false end then raise ValueError h o
-  else ((fun h o => ok h (set_adj (set_atoms o (o_atoms o ++ [(n', mkA c None None)])) (o_adj o ++ [(n', [])]))) ;;
+  else (put_atom c n' ;;
         flush false false ;;
         mark_changed [n'] ;;
         unless_transaction fix_structure) h o.
 
 (* ---- add_bond(n, m, order) *)
 Definition valid_order (x : Z) : bool := (x =? 1) || (x =? 2) || (x =? 3) || (x =? 4) || (x =? 8).
-Definition add_bond (c : cfg) (n m ord : Z) : act := fun h o =>
+(* self._bonds[n][m] = self._bonds[m][n] = Bond(order)   (n <> m, rn / rm = the rows of n / m) *)
+Definition put_bond (n m ord : Z) (rn rm : list (Z * ref)) : act := fun h o =>
+  let (h1, rf) := halloc h (mkB ord false) in
+  ok h1 (set_adj o (zset (zset (o_adj o) n (zset rn m rf)) m (zset rm n rf))).
+Definition add_bond (n m ord : Z) : act := fun h o =>
   if negb (valid_order ord) then raise ValueError h o
   else if n =? m then raise ValueError h o
   else match zget (o_adj o) n, zget (o_adj o) m with
        | Some rn, Some rm =>
            if zmem n (keys rm) then raise ValueError h o
-           else let (h1, rf) := halloc h (mkB ord false) in
-                let o1 := set_adj o (zset (zset (o_adj o) n (zset rn m rf)) m
-                                          (zset (match zget (zset (o_adj o) n (zset rn m rf)) m with Some x => x | None => rm end) n rf)) in
-                (flush false false ;;
-                 (if ord =? 8 then (if fx_special_labels c then unless_transaction calc_labels else ok)
-                  else mark_changed [m; n] ;; unless_transaction (fix_structure ;; fix_stereo))) h1 o1
+           else (put_bond n m ord rn rm ;;
+                 flush false false ;;
+                 (if ord =? 8 then unless_transaction calc_labels          (* new bond needs ring label *)
+                  else mark_changed [m; n] ;; unless_transaction (fix_structure ;; fix_stereo))) h o
        | _, _ => raise KeyError h o
        end.
 
@@ -283,17 +270,23 @@ Fixpoint unlink (n : Z) (r : list (Z * ref)) : act := fun h o =>        (* the l
                end
       end
   end.
-Definition delete_atom (c : cfg) (n : Z) : act := fun h o =>
+Definition discard_changed (n : Z) : act := fun h o =>             (* if self._changed is not None: self._changed.discard(n) *)
+  ok h (set_changed o (match o_changed o with None => None | Some l => Some (filter (fun x => negb (x =? n)) l) end)).
+Definition drop_atom (n : Z) : act := fun h o =>                   (* del self._atoms[n]; self._bonds.pop(n) *)
+  ok h (set_adj (set_atoms o (zdel (o_atoms o) n)) (zdel (o_adj o) n)).
+Definition delete_atom (n : Z) : act := fun h o =>
   match zget (o_atoms o) n, zget (o_adj o) n with
   | Some _, Some r =>
-      (unlink n r ;;
-       (if fx_del_flush c then flush false false else ok) ;;
-       unless_transaction (fix_structure ;; fix_stereo)) h (set_adj (set_atoms o (zdel (o_atoms o) n)) (zdel (o_adj o) n))
+      (drop_atom n ;;
+       unlink n r ;;
+       discard_changed n ;;
+       flush false false ;;
+       unless_transaction (fix_structure ;; fix_stereo)) h o
   | _, _ => raise KeyError h o
   end.
 
 (* ---- delete_bond(n, m) *)
-Definition delete_bond (c : cfg) (n m : Z) : act := fun h o =>
+Definition delete_bond (n m : Z) : act := fun h o =>
   match zget (o_adj o) n with
   | None => raise KeyError h o
   | Some rn =>
@@ -312,7 +305,7 @@ Definition delete_bond (c : cfg) (n m : Z) : act := fun h o =>
                   | None => raise OtherError h o2
                   | Some cl =>
                       ((if b_ord cl =? 8 then ok else mark_changed [m; n]) ;;
-                       (if fx_del_flush c then flush false false else ok) ;;
+                       flush false false ;;
                        unless_transaction (fix_structure ;; fix_stereo)) h o2
                   end
               end
@@ -320,9 +313,11 @@ Definition delete_bond (c : cfg) (n m : Z) : act := fun h o =>
       end
   end.
 
-(* ---- Graph.copy + MoleculeContainer.copy(keep_sssr, keep_components) *)
-(* one row of the new adjacency; cb = rows built so far, including the (empty) row of n itself *)
-Fixpoint copy_row (h : hp) (cb : adjacency) (n : Z) (r : list (Z * ref)) : pyres (hp * list (Z * ref)) :=
+(* ---- Graph.copy + MoleculeContainer.copy(keep_sssr, keep_components); the same loop builds substructure() *)
+(* one row of the new adjacency; cb = rows built so far, including the (empty) row of n itself.
+   keep m = the neighbour m belongs to the new molecule; f = what bond.copy(..) makes of a bond (or raises) *)
+Fixpoint gcopy_row (keep : Z -> bool) (f : bcell -> pyres bcell) (h : hp) (cb : adjacency) (n : Z) (r : list (Z * ref))
+  : pyres (hp * list (Z * ref)) :=
   match r with
   | [] => Ok (h, [])
   | (m, rf) :: t =>
@@ -330,43 +325,49 @@ Fixpoint copy_row (h : hp) (cb : adjacency) (n : Z) (r : list (Z * ref)) : pyres
       | Some rowm =>                                   (* bond partially exists. need back-connection *)
           match zget rowm n with
           | None => Err KeyError
-          | Some rf' => match copy_row h cb n t with
+          | Some rf' => match gcopy_row keep f h cb n t with
                         | Ok (h1, l) => Ok (h1, (m, rf') :: l)
                         | Err e => Err e
                         end
           end
       | None =>
-          match hget h rf with
-          | None => Err OtherError
-          | Some cl =>
-              if negb (b_lab cl) then Err AttributeError        (* bond.copy(full=True) reads in_ring *)
-              else let (h1, rf') := halloc h cl in
-                   match copy_row h1 cb n t with
-                   | Ok (h2, l) => Ok (h2, (m, rf') :: l)
-                   | Err e => Err e
-                   end
-          end
+          if keep m then
+            match hget h rf with
+            | None => Err OtherError
+            | Some cl =>
+                match f cl with
+                | Err e => Err e
+                | Ok cl' => let (h1, rf') := halloc h cl' in
+                            match gcopy_row keep f h1 cb n t with
+                            | Ok (h2, l) => Ok (h2, (m, rf') :: l)
+                            | Err e => Err e
+                            end
+                end
+            end
+          else gcopy_row keep f h cb n t
       end
   end.
-Fixpoint copy_rows (h : hp) (cb : adjacency) (rows : adjacency) : pyres (hp * adjacency) :=
+Fixpoint gcopy_rows (keep : Z -> bool) (f : bcell -> pyres bcell) (h : hp) (cb : adjacency) (rows : adjacency) : pyres (hp * adjacency) :=
   match rows with
   | [] => Ok (h, cb)
   | (n, r) :: t =>
-      match copy_row h (zset cb n []) n r with
+      match gcopy_row keep f h (zset cb n []) n r with
       | Err e => Err e
-      | Ok (h1, l) => copy_rows h1 (zset cb n l) t
+      | Ok (h1, l) => gcopy_rows keep f h1 (zset cb n l) t
       end
   end.
+(* bond.copy(full=True) reads in_ring *)
+Definition fcopy (cl : bcell) : pyres bcell := if b_lab cl then Ok cl else Err AttributeError.
+Definition copy_rows (h : hp) (cb : adjacency) (rows : adjacency) : pyres (hp * adjacency) := gcopy_rows (fun _ => true) fcopy h cb rows.
 Definition labelled (a : acell) : bool := match a_lab a with Some _ => true | None => false end.
-Definition copy_mol (c : cfg) (ks kc : bool) (h : hp) (o : mobj) : pyres (hp * mobj) :=
+Definition copy_mol (ks kc : bool) (h : hp) (o : mobj) : pyres (hp * mobj) :=
   if negb (forallb (fun na => labelled (snd na)) (o_atoms o)) then Err AttributeError   (* atom.copy(full=True) reads the labels *)
   else
   match copy_rows h [] (o_adj o) with
   | Err e => Err e
   | Ok (h1, cb) =>
-      Ok (h1, mkM (o_atoms o) cb (filter (kept ks kc) (o_cache o))
-                  (if fx_slots c then Val None else Unset) (if fx_slots c then Val None else Unset)
-                  (o_name o) (o_meta o))
+      (* copy._changed = a copy of self._changed; copy._backup = None *)
+      Ok (h1, mkM (o_atoms o) cb (filter (kept ks kc) (o_cache o)) (o_changed o) None (o_name o) (o_meta o))
   end.
 
 (* ---- remap(mapping) *)
@@ -376,69 +377,52 @@ Definition remap (mp : list (Z * Z)) : act := fun h o =>
      existsb (fun n => negb (zmem n (keys mp)) && zmem n (map snd mp)) (keys (o_atoms o))
   then raise ValueError h o
   else (flush false false) h
-         (set_adj (set_atoms o (map (fun na => (mg mp (fst na), snd na)) (o_atoms o)))
-                  (map (fun nr => (mg mp (fst nr), map (fun mr => (mg mp (fst mr), snd mr)) (snd nr))) (o_adj o))).
+         (set_changed
+           (set_adj (set_atoms o (map (fun na => (mg mp (fst na), snd na)) (o_atoms o)))
+                    (map (fun nr => (mg mp (fst nr), map (fun mr => (mg mp (fst mr), snd mr)) (snd nr))) (o_adj o)))
+           (* MoleculeContainer.remap: self._changed = {mapping.get(n, n) for n in self._changed} *)
+           (match o_changed o with None => None | Some l => Some (fold_right sadd [] (map (mg mp) l)) end)).
 
 (* ---- substructure(atoms) *)
-Fixpoint sub_row (h : hp) (sb : adjacency) (sel : list Z) (n : Z) (r : list (Z * ref)) : pyres (hp * list (Z * ref)) :=
-  match r with
-  | [] => Ok (h, [])
-  | (m, rf) :: t =>
-      match zget sb m with
-      | Some rowm =>
-          match zget rowm n with
-          | None => Err KeyError
-          | Some rf' => match sub_row h sb sel n t with
-                        | Ok (h1, l) => Ok (h1, (m, rf') :: l)
-                        | Err e => Err e
-                        end
-          end
-      | None =>
-          if zmem m sel then
-            match hget h rf with
-            | None => Err OtherError
-            | Some cl => let (h1, rf') := halloc h (mkB (b_ord cl) false) in     (* bond.copy(stereo=True): no _in_ring *)
-                         match sub_row h1 sb sel n t with
-                         | Ok (h2, l) => Ok (h2, (m, rf') :: l)
-                         | Err e => Err e
-                         end
-            end
-          else sub_row h sb sel n t
-      end
-  end.
-Fixpoint sub_rows (h : hp) (o : mobj) (sb : adjacency) (sel ns : list Z) : pyres (hp * adjacency) :=
+(* bond.copy(stereo=True): no _in_ring *)
+Definition fsub (cl : bcell) : pyres bcell := Ok (mkB (b_ord cl) false).
+(* self._bonds[n] for the selected atoms, in order *)
+Fixpoint rows_of (adj : adjacency) (ns : list Z) : pyres adjacency :=
   match ns with
-  | [] => Ok (h, sb)
-  | n :: t =>
-      match zget (o_adj o) n with
-      | None => Err KeyError
-      | Some r => match sub_row h (zset sb n []) sel n r with
-                  | Err e => Err e
-                  | Ok (h1, l) => sub_rows h1 o (zset sb n l) sel t
-                  end
-      end
+  | [] => Ok []
+  | n :: t => match zget adj n with
+              | None => Err KeyError
+              | Some r => match rows_of adj t with Ok l => Ok ((n, r) :: l) | Err e => Err e end
+              end
+  end.
+Definition sub_rows (h : hp) (o : mobj) (sel : list Z) : pyres (hp * adjacency) :=
+  match rows_of (o_adj o) sel with
+  | Err e => Err e
+  | Ok rows => gcopy_rows (fun m => zmem m sel) fsub h [] rows
   end.
 (* returns the new molecule and the exception raised by its fix_structure/fix_stereo, if any *)
-Definition substructure (c : cfg) (ats : list Z) (h : hp) (o : mobj) : pyres (hp * mobj * option pyexn) :=
+Definition substructure (ats : list Z) (h : hp) (o : mobj) : pyres (hp * mobj * option pyexn) :=
   match ats with
   | [] => Err ValueError
   | _ =>
       if negb (subset_z ats (keys (o_atoms o))) then Err ValueError
       else let sel := filter (fun n => zmem n ats) (keys (o_atoms o)) in       (* save original order *)
-           match sub_rows h o [] sel sel with
+           match sub_rows h o sel with
            | Err e => Err e
            | Ok (h1, sb) =>
                let sa := map (fun n => (n, match zget (o_atoms o) n with
                                            | Some a => mkA (a_core a) None None
                                            | None => mkA (mkCore 0 None 0 false) None None end)) sel in
                Ok ((fix_structure ;; fix_stereo) h1
-                     (mkM sa sb [] (Val None) (if fx_slots c then Val None else Unset) None None))
+                     (mkM sa sb [] None None None None))
            end
   end.
 
 (* ---- Standardize.standardize() with one rule that matches once: the patch step of __standardize (atom n gets
    charge += dch, bond n-m gets order bo) followed by fix_stereo *)
 Definition patch (n m bo dch : Z) : act := fun h o =>
+  if n =? m then raise ValueError h o        (* a match maps distinct pattern atoms to distinct atoms: guard of the harness stub *)
+  else
   match zget (o_atoms o) n, zget (o_atoms o) m, zget (o_adj o) n, zget (o_adj o) m with
   | Some an, Some _, Some rn, Some rm =>
       let chg := c_chg (a_core an) + dch in
@@ -457,32 +441,39 @@ Definition patch (n m bo dch : Z) : act := fun h o =>
                 (flush ks true ;; calc_labels ;; calc_implicit n ;; calc_implicit m ;; fix_stereo) (hset h rf (mkB bo (b_lab cl))) o1
             end
         | None =>
-            let (h1, rf) := halloc h (mkB bo false) in
-            let adj1 := zset (o_adj o1) n (zset rn m rf) in
-            let o2 := set_adj o1 (zset adj1 m (zset (match zget adj1 m with Some x => x | None => rm end) n rf)) in
-            (flush false false ;; calc_labels ;; calc_implicit n ;; calc_implicit m ;; fix_stereo) h1 o2
+            (put_bond n m bo rn rm ;; flush false false ;; calc_labels ;; calc_implicit n ;; calc_implicit m ;; fix_stereo) h o1
         end
   | _, _, _, _ => raise KeyError h o
   end.
 
 (* ---- __enter__ / __exit__ *)
-Definition enter (c : cfg) : act := fun h o =>
-  match copy_mol c true true h o with
+Definition enter : act := fun h o =>
+  match copy_mol true true h o with
   | Err e => raise e h o
-  | Ok (h1, b) => ok h1 (set_backup o (Val (Some (mkBk (o_atoms b) (o_adj b) (o_cache b) (o_name b) (o_meta b)))))
+  | Ok (h1, b) => ok h1 (set_backup o (Some (mkBk (o_atoms b) (o_adj b) (o_cache b) (o_changed b) (o_name b) (o_meta b))))
   end.
-Definition exit_exn (c : cfg) : act := fun h o =>
+Definition exit_exn : act := fun h o =>
   match o_backup o with
-  | Val (Some b) =>
-      let o1 := mkM (bk_atoms b) (bk_adj b) (bk_cache b) (o_changed o) (Val None) (bk_name b) (bk_meta b) in
-      ok h (if fx_exn_changed c then set_changed o1 (Val None) else o1)
-  | _ => raise AttributeError h o
+  | Some b => ok h (mkM (bk_atoms b) (bk_adj b) (bk_cache b) (bk_changed b) None (bk_name b) (bk_meta b))
+  | None => raise AttributeError h o
   end.
-Definition exit_ok (c : cfg) : act :=
-  (if fx_exit_changed c then (fun h o => ok h (set_changed o (Val None))) else ok) ;;
-  (if fx_exit_flush c then flush false false else ok) ;;
-  fix_structure ;; fix_stereo ;;
-  (fun h o => ok h (set_backup o (Val None))).
+(* atoms present in the backup whose charge or radical state differs from it (attribute setters don't report changes) *)
+Definition txn_diffs (o : mobj) (b : bk) : list Z :=
+  flat_map (fun na => match zget (bk_atoms b) (fst na) with
+                      | Some a0 => if (c_chg (a_core (snd na)) =? c_chg (a_core a0)) && Bool.eqb (c_rad (a_core (snd na))) (c_rad (a_core a0))
+                                   then [] else [fst na]
+                      | None => []
+                      end) (o_atoms o).
+Definition exit_ok : act :=
+  (fun h o => match o_changed o with
+              | None => ok h o
+              | Some l => match o_backup o with
+                          | None => raise AttributeError h o            (* self._backup._atoms *)
+                          | Some b => ok h (set_changed o (Some (fold_right sadd l (txn_diffs o b))))
+                          end
+              end) ;;
+  flush false false ;; fix_structure ;; fix_stereo ;;
+  (fun h o => ok h (set_backup o None)).
 
 (* ---- mol.atom(n).charge = c / .is_radical = r *)
 Definition set_charge (n v : Z) : act := fun h o =>
@@ -526,7 +517,7 @@ Inductive op :=
 Definition lift (a : act) (s : state) : state * option pyexn :=
   match a (s_heap s) (s_cur s) with (h, o, e) => (mkS h o (s_others s), e) end.
 
-Definition union (c : cfg) (rmp cp : bool) (s : state) : state * option pyexn :=
+Definition union (rmp cp : bool) (s : state) : state * option pyexn :=
   match s_others s with
   | [] => (s, Some OtherError)
   | other :: _ =>
@@ -535,7 +526,7 @@ Definition union (c : cfg) (rmp cp : bool) (s : state) : state * option pyexn :=
       let collide := existsb (fun n => zmem n (keys (o_atoms other))) (keys (o_atoms self)) in
       if collide && negb rmp then (s, Some ValueError)
       else
-        match copy_mol c false false h other with
+        match copy_mol false false h other with
         | Err e => (s, Some e)
         | Ok (h1, oc) =>
             let r1 := if collide
@@ -546,7 +537,7 @@ Definition union (c : cfg) (rmp cp : bool) (s : state) : state * option pyexn :=
             | (h2, oc', Some e) => (mkS h2 self (s_others s), Some e)
             | (h2, oc', None) =>
                 if cp then
-                  match copy_mol c false false h2 self with
+                  match copy_mol false false h2 self with
                   | Err e => (mkS h2 self (s_others s), Some e)
                   | Ok (h3, u) =>
                       (mkS h3 self (set_adj (set_atoms u (zupdate (o_atoms u) (o_atoms oc'))) (zupdate (o_adj u) (o_adj oc'))
@@ -560,20 +551,20 @@ Definition union (c : cfg) (rmp cp : bool) (s : state) : state * option pyexn :=
         end
   end.
 
-Definition step (c : cfg) (s : state) (p : op) : state * option pyexn :=
+Definition step (s : state) (p : op) : state * option pyexn :=
   match p with
   | ORead k => lift (read k) s
   | OAddAtom a n => lift (add_atom a n) s
-  | OAddBond n m ord => lift (add_bond c n m ord) s
-  | ODelAtom n => lift (delete_atom c n) s
-  | ODelBond n m => lift (delete_bond c n m) s
+  | OAddBond n m ord => lift (add_bond n m ord) s
+  | ODelAtom n => lift (delete_atom n) s
+  | ODelBond n m => lift (delete_bond n m) s
   | ORemap mp => lift (remap mp) s
-  | OUnion rmp cp => union c rmp cp s
-  | OCopy => match copy_mol c false false (s_heap s) (s_cur s) with
+  | OUnion rmp cp => union rmp cp s
+  | OCopy => match copy_mol false false (s_heap s) (s_cur s) with
              | Err e => (s, Some e)
              | Ok (h, o) => (mkS h (s_cur s) (o :: s_others s), None)
              end
-  | OSub ats => match substructure c ats (s_heap s) (s_cur s) with
+  | OSub ats => match substructure ats (s_heap s) (s_cur s) with
                 | Err e => (s, Some e)
                 | Ok (h, o, None) => (mkS h (s_cur s) (o :: s_others s), None)
                 | Ok (h, _, Some e) => (mkS h (s_cur s) (s_others s), Some e)      (* the half-made object is dropped *)
@@ -583,9 +574,9 @@ Definition step (c : cfg) (s : state) (p : op) : state * option pyexn :=
              | o :: t => (mkS (s_heap s) o (s_cur s :: t), None)
              end
   | OFlush ks kc => lift (flush ks kc) s
-  | OEnter => lift (enter c) s
-  | OExitOk => lift (exit_ok c) s
-  | OExitExn => lift (exit_exn c) s
+  | OEnter => lift enter s
+  | OExitOk => lift exit_ok s
+  | OExitExn => lift exit_exn s
   | OSetCharge n v => lift (set_charge n v) s
   | OSetRadical n v => lift (set_radical n v) s
   | OPatch n m bo dch => lift (patch n m bo dch) s
@@ -593,10 +584,10 @@ Definition step (c : cfg) (s : state) (p : op) : state * option pyexn :=
   | OSetMeta k v => lift (fun h o => ok h (set_meta o (Some (zset (match o_meta o with Some d => d | None => [] end) k v)))) s
   end.
 
-Definition run (c : cfg) (ops : list op) (s : state) : state := fold_left (fun s p => fst (step c s p)) ops s.
+Definition run (ops : list op) (s : state) : state := fold_left (fun s p => fst (step s p)) ops s.
 (* the exceptions raised along the way *)
-Fixpoint trace (c : cfg) (ops : list op) (s : state) : list (option pyexn) :=
-  match ops with [] => [] | p :: t => snd (step c s p) :: trace c t (fst (step c s p)) end.
+Fixpoint trace (ops : list op) (s : state) : list (option pyexn) :=
+  match ops with [] => [] | p :: t => snd (step s p) :: trace t (fst (step s p)) end.
 
 (* ------------------------------------------------------------------------------------------------ *)
 (* loading a molecule as the reader leaves it: every derived field calculated, labels written, _changed = _backup = None *)
@@ -615,7 +606,7 @@ Definition fresh_adj (bonds : list (Z * list (Z * Z))) (h : hp) : hp * adjacency
 Definition load (atoms : list (Z * acore)) (bonds : list (Z * list (Z * Z))) (h : hp) : hp * mobj * option pyexn :=
   let (h1, adj) := fresh_adj bonds h in
   (fix_structure ;; fix_stereo)
-    h1 (mkM (map (fun na => (fst na, mkA (snd na) None None)) atoms) adj [] (Val None) (Val None) None None).
+    h1 (mkM (map (fun na => (fst na, mkA (snd na) None None)) atoms) adj [] None None None None).
 Definition init (atoms : list (Z * acore)) (bonds : list (Z * list (Z * Z)))
                 (atoms2 : list (Z * acore)) (bonds2 : list (Z * list (Z * Z))) : state :=
   match load atoms bonds (mkH [] 0) with
@@ -630,7 +621,7 @@ Definition obs_adj (h : hp) (o : mobj) : list (Z * list (Z * Z)) :=
   map (fun nr => (fst nr, map (fun mr => (fst mr, match hget h (snd mr) with Some c => b_ord c | None => -1 end)) (snd nr))) (o_adj o).
 Definition refs_of_adj (a : adjacency) : list ref := flat_map (fun nr => map snd (snd nr)) a.
 Definition refs_of (o : mobj) : list ref :=
-  refs_of_adj (o_adj o) ++ match o_backup o with Val (Some b) => refs_of_adj (bk_adj b) | _ => [] end.
+  refs_of_adj (o_adj o) ++ match o_backup o with Some b => refs_of_adj (bk_adj b) | None => [] end.
 Definition all_refs (s : state) : list ref := refs_of (s_cur s) ++ flat_map refs_of (s_others s).
 (* object identities renamed by first occurrence *)
 Fixpoint canon_from (seen : list ref) (l : list ref) : list Z :=
@@ -645,9 +636,9 @@ Definition canon (l : list ref) : list Z := canon_from [] l.
 Definition obs_keys (o : mobj) : list key := map fst (o_cache o).
 Definition kmem (k : key) (l : list key) : bool := existsb (key_eqb k) l.
 Definition same_keys (a b : list key) : bool := forallb (fun k => kmem k b) a && forallb (fun k => kmem k a) b.
-Definition obs_changed (o : mobj) : Z * list Z :=         (* 0 unset, 1 None, 2 a set *)
-  match o_changed o with Unset => (0, []) | Val None => (1, []) | Val (Some l) => (2, l) end.
-Definition obs_backup (o : mobj) : Z := match o_backup o with Unset => 0 | Val None => 1 | Val (Some _) => 2 end.
+Definition obs_changed (o : mobj) : Z * list Z :=         (* (0 = slot unset: impossible in the model), 1 None, 2 a set *)
+  match o_changed o with None => (1, []) | Some l => (2, l) end.
+Definition obs_backup (o : mobj) : Z := match o_backup o with None => 1 | Some _ => 2 end.
 (* ------------------------------------------------------------------------------------------------ *)
 (* when is a snapshot as good as the current view *)
 Definition nsconn (v : view) : list (Z * list Z) :=      (* what not_special_connectivity is computed from *)
@@ -739,10 +730,10 @@ Fixpoint forall2b {A B : Type} (f : A -> B -> bool) (a : list A) (b : list B) : 
 (* one correspondence case: run the operations, compare the exceptions raised by each step, the final observation of every
    live molecule and the object-identity partition of all bond slots *)
 Definition exn_eqb (a b : option pyexn) : bool := option_eqb pyexn_eqb a b.
-Definition check_case (c : cfg) (s0 : state) (ops : list op) (exns : list (option pyexn)) (strict : bool)
+Definition check_case (s0 : state) (ops : list op) (exns : list (option pyexn)) (strict : bool)
                       (cur : obs) (others : list obs) (ids : list Z) : bool :=
-  let s := run c ops s0 in
-  list_eqb exn_eqb (trace c ops s0) exns &&
+  let s := run ops s0 in
+  list_eqb exn_eqb (trace ops s0) exns &&
   check_mol strict (s_heap s) (s_cur s) cur &&
   forall2b (fun o x => check_mol strict (s_heap s) o x) (s_others s) others &&
   list_eqb Z.eqb (canon (all_refs s)) ids.
@@ -750,20 +741,20 @@ Definition check_case (c : cfg) (s0 : state) (ops : list op) (exns : list (optio
 (* a long sequence compared after every harness operation (a harness operation may be several model operations) *)
 Record stepx := mkStep { st_ops : list op; st_exns : list (option pyexn); st_strict : bool; st_cur : obs; st_others : list obs;
                          st_ids : list Z }.
-Fixpoint check_steps (c : cfg) (s : state) (steps : list stepx) : bool :=
+Fixpoint check_steps (s : state) (steps : list stepx) : bool :=
   match steps with
   | [] => true
   | x :: t =>
-      let s' := run c (st_ops x) s in
-      list_eqb exn_eqb (trace c (st_ops x) s) (st_exns x) &&
+      let s' := run (st_ops x) s in
+      list_eqb exn_eqb (trace (st_ops x) s) (st_exns x) &&
       check_mol (st_strict x) (s_heap s') (s_cur s') (st_cur x) &&
       forall2b (fun o y => check_mol (st_strict x) (s_heap s') o y) (s_others s') (st_others x) &&
       list_eqb Z.eqb (canon (all_refs s')) (st_ids x) &&
-      check_steps c s' t
+      check_steps s' t
   end.
 (* index of the first disagreeing step (for reporting) *)
-Fixpoint first_bad (c : cfg) (s : state) (steps : list stepx) (i : Z) : Z :=
+Fixpoint first_bad (s : state) (steps : list stepx) (i : Z) : Z :=
   match steps with
   | [] => -1
-  | x :: t => if check_steps c s [x] then first_bad c (run c (st_ops x) s) t (i + 1) else i
+  | x :: t => if check_steps s [x] then first_bad (run (st_ops x) s) t (i + 1) else i
   end.
